@@ -345,6 +345,7 @@ struct E2EFlags {
     reclaimed: bool,
     reopened: bool,
     quiescent_points: usize,
+    crash_probes: usize,
 }
 
 /// Independent view of the image: for every block the entries that a scan reconstructs (stopping at the first clean
@@ -409,6 +410,48 @@ fn parse_image(cfg: &HybCfg, image: &[Vec<u8>], failures: &mut Vec<Failure>, fla
         }
     }
     latest
+}
+
+/// Crash cut-offs inside a batch: the batch's device writes are pending (io is held); complete them one by one and
+/// after each completion reopen a copy of the device as it would be if the process died now (completed writes only).
+/// The reopened store is at a quiescent point, so the second sentence of the statement applies to it: every key it
+/// claims to hold loads, with matching key, from the recorded position.
+fn crash_probes(sim: &mut HybSim, cfg: &HybCfg, model: &BTreeMap<u64, Option<u64>>, failures: &mut Vec<Failure>, flags: &mut E2EFlags, op: usize) {
+    let mut n = 0;
+    while sim.disk.pending_len() > 0 && n < 6 && flags.crash_probes < 18 && failures.is_empty() {
+        sim.raw_complete_io(0);
+        n += 1;
+        flags.crash_probes += 1;
+        let image = sim.disk.crash_image(&[]);
+        let (mut s2, ok) = HybSim::from_image(cfg.clone(), image, foyer::RecoverMode::Quiet);
+        if !ok {
+            failures.push(Failure::new("e2e:crash-image-does-not-open", format!("op {op}: the device image after {n} completed writes of the batch does not open")));
+            let _ = s2.finish();
+            return;
+        }
+        let mut found = vec![];
+        for k in model.keys() {
+            let claims = s2.cache().storage().may_contains(k);
+            match (s2.raw_get(*k), claims) {
+                (Ok(LookupOut::Miss), true) => found.push(Failure::new(
+                    "e2e:claimed-entry-does-not-load-after-crash",
+                    format!("op {op}: process dies after {n} completed device writes of the batch; the reopened disk tier claims to hold key {k} (recovered from a blob index) but the entry cannot be loaded from the recorded position"),
+                )),
+                (Ok(LookupOut::Hit { decoded: Decoded::Valid { key, .. }, .. }), _) if key == *k => {}
+                (Ok(LookupOut::Hit { decoded: Decoded::Tiny { .. }, .. }), _) => {}
+                (Ok(LookupOut::Miss), false) => {}
+                (Ok(other), _) => found.push(Failure::new("e2e:wrong-load-after-crash", format!("op {op}: after a crash at write {n} of the batch key {k} loads as {other:?}"))),
+                (Err(_), _) => found.push(Failure::new("e2e:lookup-hangs", format!("op {op}: after a crash at write {n} of the batch get({k}) never resolves"))),
+            }
+        }
+        // a full device starts reclaiming as soon as it is reopened: entries may then legitimately vanish between
+        // may_contains and the lookup
+        let reclaimed = s2.full_log().iter().any(|(_, r)| r.kind == IoKind::Write && r.offset == 0 && r.len == PAGE && r.data.as_ref().map(|d| d.iter().all(|x| *x == 0)).unwrap_or(false));
+        let _ = s2.finish();
+        if !reclaimed {
+            failures.extend(found);
+        }
+    }
 }
 
 pub fn exec_e2e(case: &E2ECase) -> CaseReport {
@@ -544,6 +587,7 @@ pub fn exec_e2e(case: &E2ECase) -> CaseReport {
                     model.insert(*k as u64, Some(v));
                 }
                 sim.raw_settle();
+                crash_probes(&mut sim, &cfg, &model, &mut failures, &mut flags, i);
             }
             EOp::Run { n } => {
                 for _ in 0..*n {
@@ -609,6 +653,9 @@ pub fn exec_e2e(case: &E2ECase) -> CaseReport {
     }
     if flags.reopened {
         classes.push("recovery-scan");
+    }
+    if flags.crash_probes > 0 {
+        classes.push("crash-cut-inside-batch-reopened");
     }
     // entries dropped by a full buffer are outside the claim; the model would expect them
     let discarded = sb > 0 || sc > 0;
